@@ -24,7 +24,7 @@ func (e *FnEnc) loopFrame(li *loopInfo, pre *State, assume bool) {
 	e.allocClosureAxioms()
 	alloc0 := quoteSym("$alloc")
 	for _, k := range sortedKeys(li.mods) {
-		if k == "$alloc" || strings.HasPrefix(k, "R/") {
+		if k == "$alloc" || strings.HasPrefix(k, "R/") || k == ghostClock {
 			continue // allocation set / iterator state of a map range: not locations of the program's heap
 		}
 		if _, known := e.heapSort[k]; !known {
@@ -62,3 +62,7 @@ func (e *FnEnc) loopFrame(li *loopInfo, pre *State, assume bool) {
 		}
 	}
 }
+
+// ghostClock: the last clock reading, a ghost location libspec/std.spec hangs on the name of time.startNano
+// (time.Now: non-decreasing readings). It is not program state: no frame condition applies to it.
+const ghostClock = "G/time.startNano/"
